@@ -71,7 +71,7 @@ Proof.
   all: try (destruct (d_subreq D); [reflexivity|]).
   all: consume_cases cv cv2 H.
   all: try (destruct H; subst; reflexivity).
-  all: destruct (req_ok _ _ _); reflexivity.
+  all: reflexivity.
 Qed.
 
 Lemma parse_common_pnone D ch c cv : snd (fst (parse_common D PNone ch c cv)) = PNone.
@@ -79,7 +79,7 @@ Proof.
   unfold parse_common.
   destruct (d_subs D) as [|sp sps]; destruct (selected D ch c) as [x|].
   all: try (destruct (d_subreq D); [reflexivity|]).
-  all: rewrite consume_pnone; destruct (req_ok _ _ _); reflexivity.
+  all: rewrite consume_pnone; reflexivity.
 Qed.
 
 (* ------------------------------------------------------------------------------------------------ *)
